@@ -47,6 +47,12 @@ same quantity as the bound of the deque (`deque(maxlen=…)`): one expression of
 model's single `cap` stands for both -/
 theorem gen_full_check_is_maxlen : Gen.RecvProg.capTied = true := by decide
 
+/-- OBLIGATION: the receiver's lock is re-entrant (`Condition()` wraps an `RLock`), so a callback reached from inside the
+`with` block (a logging handler) may call back into the same receiver on the same thread.  No call out of the receiver
+code sits where the state is inconsistent: in `_receive_signal` between reading the counter and the append / the drop,
+in `get_next_signal` between the queue test and `popleft` -/
+theorem gen_no_callout_inside_window : Gen.RecvProg.callouts.all (fun c => !exposes Gen.RecvProg.progs c) = true := by decide
+
 /-- OBLIGATION (the code as it is): in a task thread the helper waits for `predicate or stop flag` and then gives the stop
 flag priority over the result; in a plain thread it is `cond.wait_for(predicate, timeout)` -/
 theorem gen_wait_helpers :
@@ -408,6 +414,21 @@ def unlockedSeqProgs : Progs := { P0 with recv := [.takeSeq, .acquire, .dropIfFu
 theorem unlocked_seq_breaks_order :
     (crun unlockedSeqProgs (St.init 4 .old)
       ([.call 0 (.recv 7), .call 1 (.recv 8), .step 0] ++ steps 1 6 ++ steps 0 5)).g.r.q.map Sig.seq = [1, 0] := by decide
+
+/-- why `gen_no_callout_inside_window` matters (a constant, not the source): if another arrival can run between
+`self._receiver_seqnr += 1` and the append — here by giving the lock away in between, in the code by a re-entrant call
+on the same thread — the queue ends as [1, 0] -/
+def exposedWindowProgs : Progs :=
+  { P0 with recv := [.acquire, .mkSig, .incSeq, .dropIfFullNew, .release, .acquire, .append, .notifyAll, .release] }
+
+theorem exposed_window_breaks_order :
+    (crun exposedWindowProgs (St.init 4 .old)
+      ([.call 0 (.recv 7), .call 1 (.recv 8)] ++ steps 0 5 ++ steps 1 9 ++ steps 0 4)).g.r.q.map Sig.seq = [1, 0] := by decide
+
+/-- the call-out of the seeded kind (after the full-queue test, lock held) is inside the window; one before the counter
+is read or after the append is not -/
+example : exposes P0 ⟨.recv, 4, true⟩ = true ∧ exposes P0 ⟨.recv, 1, true⟩ = false ∧ exposes P0 ⟨.recv, 5, true⟩ = false ∧
+    exposes P0 ⟨.get, 3, true⟩ = true ∧ exposes P0 ⟨.get, 1, true⟩ = false ∧ exposes P0 ⟨.recv, 4, false⟩ = false := by decide
 
 /-- why `gen_get_checks_queue_first` matters (a constant, not the source): without the test before the wait helper a task
 that was asked to stop gets QMI_TaskStopException although a signal is queued -/
